@@ -5,9 +5,10 @@ PROPERTY_GROUPS = {
     'C06': ['rep'],
     'C08': ['timing'],
     'C09': ['timing', 'rep', 'dt'],
+    'C12': ['mps'],
     'C13': ['httprange'],
     'C14': ['events'],
-    'C16': ['events', 'bufreader', 'httprange', 'rep', 'timing'],
+    'C16': ['events', 'bufreader', 'httprange', 'rep', 'timing', 'mps'],
     'C19': ['dt'],
     'C20': ['bufreader'],
 }
